@@ -76,13 +76,14 @@ Fixpoint gen_chunks (off : nat) (l : list (N * N)) : journal :=
   end.
 
 (* one flush placed in the window between a chunk iterator's io.EOF and the selector's look at the chunks (RANGE walks):
-   the chunk layout (id, records) of the partition before and after the flush, and the position the page returned for it.
-   The model's eof_step, started at the end of the last chunk of `before`, answers with that position *)
+   the chunk layout (id, records) of the partition before and after the flush, and the position the reader went on from
+   (where the first event lies that the page delivered from behind the data it had seen; the returned position when it
+   delivered none). The model's eof_step, started at the end of the last chunk of `before`, answers with that position *)
 Definition eofwin := (list (N * N) * list (N * N) * (N * N))%type.
 Definition eof_ok (w : eofwin) : bool :=
   let '(before, after, pos) := w in
   match last (map Some before) None with
-  | Some (cid, n) => pos_eqb (jit_pos (fst (eof_step repo_restores_eof (gen_chunks 0 after) (mkJit cid n (Some n) false)))) pos
+  | Some (cid, n) => pos_eqb (jit_pos (fst (eof_step repo_reresolves_eof repo_restores_eof (gen_chunks 0 after) (mkJit cid n (Some n) false)))) pos
   | None => false
   end.
 
